@@ -104,30 +104,30 @@ Fixpoint lex_go (st : option lstate) (seen : bool) (rtok : str) (s : list Z) : l
   | [] => match st with None => [] | Some st' => finish st' seen (rev rtok) end
   | c :: s' =>
       if c =? 0 then lex_go st seen rtok s' else
-      let start :=
+      let start := fun (_ : unit) =>
         if is_alpha c then lex_go (Some SA) false [c] s'
         else if is_digit c then lex_go (Some S0) false [c] s'
         else if is_space c then [32] :: lex_go None false [] s'
         else [c] :: lex_go None false [] s' in
       match st with
-      | None => start
+      | None => start tt
       | Some SA =>
           if is_alpha c then lex_go (Some SA) true (c :: rtok) s'
           else if c =? 46 then lex_go (Some SAd) true (c :: rtok) s'
-          else finish SA true (rev rtok) ++ start
+          else finish SA true (rev rtok) ++ start tt
       | Some S0 =>
           if is_digit c then lex_go (Some S0) seen (c :: rtok) s'
           else if (c =? 46) || ((c =? 44) && (2 <=? Z.of_nat (length rtok)))
                then lex_go (Some S0d) seen (c :: rtok) s'
-          else finish S0 seen (rev rtok) ++ start
+          else finish S0 seen (rev rtok) ++ start tt
       | Some SAd =>
           if (c =? 46) || is_alpha c then lex_go (Some SAd) true (c :: rtok) s'
           else if is_digit c && last_is_dot rtok then lex_go (Some S0d) true (c :: rtok) s'
-          else finish SAd true (rev rtok) ++ start
+          else finish SAd true (rev rtok) ++ start tt
       | Some S0d =>
           if (c =? 46) || is_digit c then lex_go (Some S0d) seen (c :: rtok) s'
           else if is_alpha c && last_is_dot rtok then lex_go (Some SAd) seen (c :: rtok) s'
-          else finish S0d seen (rev rtok) ++ start
+          else finish S0d seen (rev rtok) ++ start tt
       end
   end.
 
